@@ -7,7 +7,7 @@
        (R2)  Comments(out) = Comments(in) as multisets of comment texts
              (every comment exactly once, text unchanged),
        (R3)  Format(out, options) = out                         (fixed point).
-   `Conforms(o)` states this over an *observation* o recorded from the real formatter:
+   `Conforms(o)` (module FormatRel) states this over an *observation* o recorded from the real formatter:
        o.err      first pass reported an error          o.parses   the output parses
        o.asteq    ASTs equal up to import order          o.cin/o.cout  comments of input / output, as
        o.err2     second pass reported an error                        sequences of <<token, text>>
@@ -24,33 +24,7 @@
        a formatter OPTION combination.
    TLC enumerates the cases (Place); the driver renders them, runs the formatter and records the
    observations. *)
-EXTENDS AstShapes
-
-\* ------------------------------------------------------------- the relation
-BagOf(seq) == [x \in {seq[i] : i \in 1..Len(seq)} |-> Cardinality({i \in 1..Len(seq) : seq[i] = x})]
-Tokens(seq) == {seq[i][1] : i \in 1..Len(seq)}
-Lost(o)       == Tokens(o.cin) \ Tokens(o.cout)
-Invented(o)   == Tokens(o.cout) \ Tokens(o.cin)
-Duplicated(o) == {k \in Tokens(o.cout) : Cardinality({i \in 1..Len(o.cout) : o.cout[i][1] = k}) >
-                                        Cardinality({i \in 1..Len(o.cin) : o.cin[i][1] = k})}
-TextChanged(o) == {k \in Tokens(o.cin) \cap Tokens(o.cout) :
-                     {o.cin[i][2] : i \in {j \in 1..Len(o.cin) : o.cin[j][1] = k}} #
-                     {o.cout[i][2] : i \in {j \in 1..Len(o.cout) : o.cout[j][1] = k}}}
-R1(o) == o.parses /\ o.asteq
-R2(o) == BagOf(o.cin) = BagOf(o.cout)
-R3(o) == ~o.err2 /\ o.fixed
-Conforms(o) == o.err \/ (R1(o) /\ R2(o) /\ R3(o))
-\* why an observation does not conform (the semantic class of a finding)
-Reasons(o) ==
-  IF o.err THEN {} ELSE
-     (IF ~o.parses THEN {"output-does-not-parse"} ELSE {})
-     \cup (IF o.parses /\ ~o.asteq THEN {"ast-changed"} ELSE {})
-     \cup (IF Lost(o) # {} THEN {"comment-lost"} ELSE {})
-     \cup (IF Duplicated(o) # {} \/ Invented(o) # {} THEN {"comment-duplicated"} ELSE {})
-     \cup (IF TextChanged(o) # {} THEN {"comment-text-changed"} ELSE {})
-     \cup (IF o.err2 THEN {"second-pass-error"} ELSE {})
-     \cup (IF ~o.err2 /\ ~o.fixed THEN {"not-idempotent"} ELSE {})
-ReasonsSound == TRUE   \* (checked on the trace: Conforms(o) <=> Reasons(o) = {})
+EXTENDS AstShapes, FormatRel
 
 \* --------------------------------------------------- the comment-placement model
 CONSTANTS GapMax,      \* gaps 0..GapMax of the target form are enumerated (the driver skips gaps a form does not have)
